@@ -24,7 +24,8 @@ MANDATORY = ["ungrouped_add_ancilla_inside_span", "child_edited_after_add", "rej
              "reject:duplicate_herald", "reject:incomplete_swaps", "reject:oversize_add",
              "reject:oversize_add_trailing_ancilla", "reject:oversize_add_heralded_child", "reject:plus_size", "reject:noninteger_mode",
              "shared_instances_checked", "passed_to:Simulator", "passed_to:Sampler", "passed_to:QuickSampler",
-             "passed_to:Analyzer", "passed_to:Reck", "passed_to:Display", "passed_to:tomography", "converter_run"]
+             "passed_to:Analyzer", "passed_to:Reck", "passed_to:Display", "passed_to:tomography", "converter_run",
+             "reused_object_contains_plain_group", "parent_edited_after_copy"]
 DECIDING = ["mon.arg_fingerprints_compared", "mon.reject_atomicity_checks", "parent_stability_comparisons",
             "shared_instance_comparisons"]
 BUDGET = {"quick": 30, "thorough": 480}
@@ -109,11 +110,19 @@ def reuse_history(ctx, lw, rng):
     if r < 0.25:
         x = [lw.qubit.H(), lw.qubit.CNOT(), lw.qubit.CZ_Heralded(), lw.qubit.S()][int(rng.integers(4))]
         xlog.append(["gate", type(x).__name__])
+    elif r < 0.4:
+        # herald-free object that contains plain groups (sub-circuits added with group=True)
+        saved = b.loss_p
+        x = b.tree(int(rng.integers(2, 5)), 1, xlog, max_children=2, steps=(0, 3), herald_p=0.0, group_p=1.0,
+                   gate_p=0.0, direct_heralds_p=0.0, plus_p=0.0)
+        ctx.bucket("reused_object_contains_plain_group")
     elif r < 0.6:
         x = b.leaf(int(rng.integers(1, 4)), int(rng.integers(1, 5)), xlog, heralds=0)
     else:
         x = b.leaf(int(rng.integers(2, 5)), int(rng.integers(1, 5)), xlog, heralds=int(rng.integers(1, 3)))
     parents = []
+    x_copy = x.copy()                       # a copy taken before anything else happens must never move
+    fp_copy = circmon.circuit_fingerprint(x_copy, with_unitary=True)
     n_use = int(rng.integers(1, 21 if ctx.tier == "thorough" else 9))
     hist = [["x", xlog]]
     had_ancilla = False
@@ -181,6 +190,24 @@ def reuse_history(ctx, lw, rng):
         hist.append(["edit_child"])
     except Exception:  # noqa: BLE001
         pass
+    # copies: a copy of a parent taken now must not move when the parent receives another heralded sub-circuit
+    for p in parents[:3]:
+        try:
+            pc = p.copy()
+            fpc = circmon.circuit_fingerprint(pc, with_unitary=True)
+            sub = b.leaf(2, 2, [], heralds=1)
+            if sub.input_modes <= b.numbered(p):
+                p.add(sub, 0)
+                ctx.bucket("parent_edited_after_copy")
+                if circmon.circuit_fingerprint(pc, with_unitary=True) != fpc:
+                    ctx.violation("a copy of a circuit changed when a heralded sub-circuit was added to the original",
+                                  case={"history": hist}, mechanism="copy_changed_by_edit_of_original",
+                                  monitor="copy independence")
+        except Exception as e:  # noqa: BLE001
+            ctx.count("copy_probe_raised:" + type(e).__name__)
+    if circmon.circuit_fingerprint(x_copy, with_unitary=True) != fp_copy:
+        ctx.violation("a copy of the reused circuit, taken before it was used, changed", case={"history": hist},
+                      mechanism="copy_of_argument_changed", monitor="copy independence")
     for p in parents:
         status, problems = circmon.compare(p, rng)
         if status == "compared":
